@@ -11,7 +11,7 @@ from __future__ import annotations
 
 from decimal import Decimal
 
-from checks.c02 import PATHS, Rig
+from checks.c02 import PATHS, Rig, drive
 from checks.c03 import pairs
 from vlib import tables
 from vlib.common import NCPU, Run, Shard, describe_exc, rng, run_shards
@@ -156,6 +156,31 @@ def shard_heater(sh: Shard, combos, seed):
         base = bytes(r.randrange(256) for _ in range(1024))
         for units in ("C", "F"):
             b0 = set_units(rig, base, units)
+            # the heater's own setters (blocking and awaitable): a representable reading handed to
+            # set_target_temperature writes exactly its word back
+            spref = refs[K.KEY_SETPOINT_G]
+            if spref.rw is not None:
+                conv0 = (lambda x: x / 18.0) if units == "C" else (lambda x: (x + 320) / 10.0)
+                for raw in [270, 271, 300, 541, 701, 719, 720] + [r.randrange(270, 721) for _ in range(8)]:
+                    bb = put_word(b0, spref.pos, (raw ^ 0x155) & 0xFFFF)
+                    if tables.ref_of(acc[K.KEY_TEMP_UNITS]).decode(bb) != units:
+                        continue
+                    for how in ("set_target_temperature", "async_set_target_temperature"):
+                        rig.set_block(bb)
+                        rig.cap.clear()
+                        sh.evaluations += 1
+                        sh.count("heater_setter_writes")
+                        try:
+                            if how.startswith("async"):
+                                drive(heater.async_set_target_temperature(conv0(raw)))
+                            else:
+                                heater.set_target_temperature(conv0(raw))
+                        except Exception as e:
+                            sh.violation("C14:heater-raise", f"heater.{how}({conv0(raw)}) raised {e!r}", {"tables": combo, "units": units, "raw": raw, "exc": describe_exc(e)})
+                            continue
+                        got = [(p_, l_, v_) for _, p_, l_, v_ in rig.cap]
+                        if got != [(spref.pos, 2, raw)]:
+                            sh.violation(f"C14:heater-setter:{units}", f"heater.{how}({conv0(raw)!r}) in {units} (the reading of raw {raw}) emitted {got}, expected one write of {raw} at {spref.pos}", {"tables": combo, "units": units, "raw": raw, "how": how})
             hvals = range(min(4, hflag.mask + 1)) if hflag else [None]
             cvals = range(min(4, cflag.mask + 1)) if cflag else [None]
             for hv in hvals:
@@ -232,6 +257,7 @@ def main(tier, seed):
     run.need(run.counters.get("writebacks", 0) >= 65536 * 2 * 3, "exhaustive write-back incomplete")
     run.need(run.counters.get("operation_by_temperatures", 0) > 100 and run.counters.get("operation_by_both_flags", 0) > 100, "operation ladder branches not all exercised")
     run.need(run.counters.get("decimal_writes", 0) > 1000, "too few decimal writes")
+    run.need(run.counters.get("heater_setter_writes", 0) > 500, "the heater setters were hardly exercised")
     run.sample({"exhaustive": "raw 0..65535 x units C,F: read + write-back via 3 paths on inyt-cfg-50/log-50 SetpointG"})
     return run.finish(
         rule="(a) ALL raw words 0..65535 x both units: read through the real accessor and written back through 3 write paths (exhaustive); (b) decimal temperatures on a 0.05 grid over 5..50 C / 40..125 F plus random decimals, as float/str/int forms; (c) the real GeckoWaterHeater on table pairs covering every cfg/log module (thorough: all 895): all flag values x both units x temperature triples; distinct = raw ranges + decimal partitions + heater table pairs",
